@@ -224,9 +224,11 @@ def ipv4_network_exact(ai: int, p: int, lo: Optional[int], hi: Optional[int]) ->
                  "returned canonical; host field accepts an address iff allow_ipv4; idempotent")
 def ipv4_address_and_host(a: int, b: int, c: int, d: int, allow: bool, which: int) -> bool:
     """
-    pre: 0 <= a < 6 and 0 <= b < 6 and 0 <= c < 6 and 0 <= d < 6 and 0 <= which <= 1
+    pre: 0 <= a < 6 and 0 <= b < 6 and 2 <= c < 6 and 2 <= d < 6 and 0 <= which <= 1
     post: _
     """
+    if (a in (1, 2) and b in (1, 2)) and (c, d) != (2, 2):
+        skip("interior octet values: one representative combination")
     octs = [_octet(a), _octet(b), _octet(c), _octet(d)]
     text = ".".join(str(o) for o in octs)
     is_addr = all(0 <= o <= 255 for o in octs)
@@ -398,4 +400,89 @@ def url_exact(ui: int, required: bool) -> bool:
     hold("accept", want, lambda: "%r accepted as a URL" % (text,))
     hold("accept", r == text, "URL changed by validation")
     _check_idempotent(field, cfg, r)
+    return True
+
+
+# --------------------------------------------------------------------------- case transforms that change the length
+SPECIAL = ("\u00df", "\u00dfa", "\ufb03", "\u0130", "\u01f0", "a\u00df", "ab", "")
+
+
+@obligation(prop="C05", sites=("accept", "reject"), budget={"quick": 120, "thorough": 300},
+            encodes=["cincoconfig.fields.string_field.StringField._validate"],
+            what="StringField(transform_case, min_len/max_len symbolic in 0..4) on strings whose case mapping changes "
+                 "their length (sharp s, ligature, dotted capital I, ...): the length constraint applies to the "
+                 "normalised value that is returned and stored; the result validates again")
+def string_case_changes_length(si: int, upper: bool, lo: Optional[int], hi: Optional[int]) -> bool:
+    """
+    pre: 0 <= si < 8
+    pre: (lo is None or 0 <= lo <= 4) and (hi is None or 0 <= hi <= 4)
+    post: _
+    """
+    v = SPECIAL[0]
+    for n in range(8):
+        if si == n:
+            v = SPECIAL[n]
+    case = "upper" if upper else "lower"
+    field = StringField(min_len=lo, max_len=hi, transform_case=case)
+    cfg = _cfg()
+    want = _string_oracle(v, lo, hi, None, None, case, False)
+    try:
+        r = field.validate(cfg, v)
+    except ValueError:
+        return hold("reject", want[0] == "reject", lambda: "rejected %r, documented %r" % (v, want))
+    hold("accept", want[0] == "ok" and r == want[1], lambda: "%r -> %r, documented %r" % (v, r, want))
+    hold("accept", (lo is None or len(r) >= lo) and (hi is None or len(r) <= hi),
+         lambda: "returned value %r violates the declared length bounds (%r, %r)" % (r, lo, hi))
+    _check_idempotent(field, cfg, r)
+    return True
+
+
+# --------------------------------------------------------------------------- containers whose keys/items are encoded
+@obligation(prop="C05", sites=("rt",), budget={"quick": 120, "thorough": 300},
+            encodes=["cincoconfig.fields.dict_field.DictField.to_basic", "cincoconfig.fields.dict_field.DictField.to_python",
+                     "cincoconfig.fields.list_field.ListField.to_basic", "cincoconfig.fields.list_field.ListField.to_python"],
+            what="typed containers whose KEYS, values or items have a non-trivial on-disk form (Dict(Bytes hex -> Int), "
+                 "Dict(Str -> Bytes), List(Bytes), List(List(Bytes))): to_python(to_basic(v)) == v, menu of byte strings")
+def container_codec_inverse(bi: int, bj: int, n: int) -> bool:
+    """
+    pre: 0 <= bi < 7 and 0 <= bj < 7 and 0 <= n <= 2
+    post: _
+    """
+    from cincoconfig import DictField, IntField, ListField
+    b1 = b2 = BLOBS[0]
+    for k in range(7):
+        if bi == k:
+            b1 = BLOBS[k]
+        if bj == k:
+            b2 = BLOBS[k]
+    from vf.hlib.stubs import untraced
+    cnt = 0
+    for k in range(3):
+        if n == k:
+            cnt = k
+    n = cnt
+    with untraced():   # concrete menu values from here on
+        return _codec_inverse(b1, b2, n)
+
+
+def _codec_inverse(b1: bytes, b2: bytes, n: int) -> bool:
+    from cincoconfig import DictField, IntField, ListField
+    schema = Schema()
+    schema.dk = DictField(BytesField(encoding="hex"), IntField())
+    schema.dv = DictField(StringField(), BytesField())
+    schema.lb = ListField(BytesField())
+    schema.ll = ListField(ListField(BytesField(encoding="hex")))
+    cfg = schema()
+    cfg.dk = dict([(b1, 1), (b2, 2)][:n])
+    cfg.dv = dict([("a", b1), ("b", b2)][:n])
+    cfg.lb = [b1, b2][:n]
+    cfg.ll = [[b1], [b2, b1]][:n]
+    for key in ("dk", "dv", "lb", "ll"):
+        field = schema[key]
+        val = cfg[key]
+        basic = field.to_basic(cfg, val)
+        back = field.to_python(cfg, basic)
+        same = (dict(back) == dict(val)) if key.startswith("d") else ([list(i) if isinstance(i, list) else i for i in back]
+                                                                      == [list(i) if isinstance(i, list) else i for i in val])
+        hold("rt", same, lambda: "%s: to_python(to_basic(%r)) = %r (on-disk %r)" % (key, val, back, basic))
     return True
